@@ -163,4 +163,12 @@ PROPS['C14'] = {
                    'commit=False call and by random operation histories executed on real objects and on the extracted state machine.',
 }
 
+PROPS['C15'] = {
+    'group': 'objects', 'level': 'proof', 'build_timeout': 2400,
+    'explanation': 'Theorems about the model of the process-wide state (TRS cache and its switch, MasterConfig) for ALL histories: in every reachable state each cache entry equals the recomputed '
+                   'decomposition; every outcome of TRS(), trs_to_dict, from_twprgesec, PLSSDesc, Tract, find_twprge is the pure function of its arguments and the MasterConfig in force -- cache on, off, '
+                   'cold or warm; the probe after any history equals the probe in a fresh process under the MasterConfig the history left (C15_probe). Aliasing of returned objects is outside a pure model: '
+                   'it is decided on each run by histories with mutation steps executed on the real library and compared with the state machine and with a fresh interpreter per probe.',
+}
+
 NOT_CLAIMED = {}
